@@ -184,6 +184,8 @@ impl Compactor {
             })
         }));
 
+        #[cfg(feature = "verif")]
+        crate::verif::point(format!("compactor.read_done(t{})", table.table_id())).await;
         self.storage.version.commit_changes(changes).await?;
 
         match rowset_id {
@@ -208,9 +210,24 @@ impl Compactor {
     pub async fn run(mut self) -> StorageResult<()> {
         loop {
             {
+                #[cfg(feature = "verif")]
+                crate::verif::point("compactor.pass").await;
                 let tables = self.storage.tables.read().clone();
+                // hash order is an uncontrolled choice: visit tables by id when a scheduler is armed
+                #[cfg(feature = "verif")]
+                let tables = {
+                    let mut v: Vec<_> = tables.into_iter().collect();
+                    if crate::verif::sched_armed() {
+                        v.sort_by_key(|(id, _)| (id.schema_id, id.table_id));
+                    }
+                    v
+                };
                 let pin_version = self.storage.version.pin();
+                #[cfg(feature = "verif")]
+                crate::verif::point("compactor.pinned").await;
                 for (_, table) in tables {
+                    #[cfg(feature = "verif")]
+                    crate::verif::point(format!("compactor.table(t{})", table.table_id())).await;
                     if let Some(_guard) = self
                         .storage
                         .txn_mgr
